@@ -14,7 +14,9 @@ EXPLANATION = (
     "membership; a retired node is handed to its gc function exactly when the search says 'not found' and is re-linked and "
     "counted otherwise; hazard_pointer_free links and counts before testing count >= threshold and scans exactly then; a new "
     "record's threshold (2 x records x slots) is stored before the CAS that publishes it and older records are bumped by "
-    "2 x slots with an atomic add afterwards.  'Not reclaimed while protected' as a temporal fact and the garbage bound as a "
+    "2 x slots with an atomic add afterwards; the scan starts with a full fence, and the snapshot it searches is private to the invocation "
+    "(neither re-read from the record after a reclamation callback nor left reachable through the record while callbacks run: a callback may "
+    "retire nodes and run a nested scan).  'Not reclaimed while protected' as a temporal fact and the garbage bound as a "
     "runtime count are not decided.")
 NOT_DECIDED = ["no reclamation while protected, as a temporal property over interleavings", "the garbage bound as a runtime count"]
 ASSUMPTIONS = ["x86-TSO: only the store->load fence in hazard_pointer_using is needed"]
